@@ -15,7 +15,6 @@ import (
 	"sort"
 	"strings"
 	"sync"
-	"testing"
 	"testing/synctest"
 	"time"
 
@@ -623,19 +622,15 @@ var regModel = porcupine.Model{
 // Run executes one history.
 func Run(c *run.Ctx) {
 	s := &sim{c: c, t: c.Tape, faults: c.Knob("faults", "on") == "on"}
-	func() {
-		defer func() {
-			if r := recover(); r != nil {
-				msg := fmt.Sprint(r)
-				if strings.Contains(msg, "deadlock") {
-					c.Probe("bubble-ended-with-blocked-goroutines")
-					return
-				}
-				c.Violate("no-crash", "C17/panic/"+run.ArraiFrame(msg), "panic: %s", msg)
-			}
-		}()
-		synctest.Test(c.T, func(t *testing.T) { s.body() })
-	}()
+	msg, stuck := run.Bubble(c.T, 25*time.Second, s.body)
+	switch {
+	case stuck:
+		c.Violate("progress", "C17/wedge/never-quiescent", "the simulation never became quiescent: the engine goroutine or a caller is blocked for ever on something that is not a channel (a mutex)")
+	case strings.Contains(msg, "deadlock"):
+		c.Probe("bubble-ended-with-blocked-goroutines")
+	case msg != "":
+		c.Violate("no-crash", "C17/panic/"+run.ArraiFrame(msg), "panic: %s", msg)
+	}
 	if !c.Failed() {
 		s.checkStreams()
 	}
